@@ -252,6 +252,14 @@ class CSSImportRule(cssrule.CSSRule):
 
             # set all
             if ok:
+                old = (
+                    self._seq,
+                    self._atkeyword,
+                    getattr(self, '_keyword', None),
+                    self.hreftype,
+                    self._name,
+                    self._media,
+                )
                 self._setSeq(newseq)
 
                 self.atkeyword = new['keyword']
@@ -265,7 +273,25 @@ class CSSImportRule(cssrule.CSSRule):
                     self.media = cssutils.stylesheets.MediaList(mediaText='all')
 
                 # needs new self.media
-                self.href = new['href']
+                try:
+                    self.href = new['href']
+                except xml.dom.DOMException:
+                    # (raising mode: the imported sheet does not parse) the
+                    # href setter keeps href and styleSheet, keep the rest too
+                    self._media._parentRule = None
+                    (
+                        self._seq,
+                        self._atkeyword,
+                        self._keyword,
+                        self.hreftype,
+                        self._name,
+                        self._media,
+                    ) = old
+                    self._media._parentRule = self
+                    if self._styleSheet is not None:
+                        self._styleSheet.title = self._name
+                        self._styleSheet._media = self._media
+                    raise
 
     cssText = property(
         fget=_getCssText,
